@@ -307,6 +307,8 @@ impl Task {
         let ctx = self.create_context();
         let value = utils::fill_params(&self.node.content.params(), &ctx);
         self.set_data_with(|data| data.set(consts::ACT_PARAMS_CACHE, value.clone()));
+        // no task event follows this write: keep the stored row current
+        let _ = self.runtime.cache().upsert(self);
 
         value
     }
